@@ -39,7 +39,7 @@ from simcore.simnet import NET, Peer, TapePolicy, step, make_running
 from simcore.runner import HarnessLimit
 from refs.http_resp import parse_response, second_opinion, Malformed
 
-from circuits import Manager, Component
+from circuits import Manager, Component, Event
 from circuits.core.pollers import Select, Poll, EPoll
 from circuits.web import Controller, Server
 from circuits.web import exceptions as X
@@ -87,7 +87,7 @@ PROBES = ['resp-checked', 'resp-checked:fault-free', 'resp-checked:faulty', 'kee
           'method:HEAD', 'http10', 'closed-by-server', 'kept-open', 'real-partial-send', 'peer:stall', 'peer:slow', 'fault:short_write',
           'fault:transient_send_error', 'overlap', 'body>sndbuf', 'empty-chunk', 'nonascii', 'second-opinion', 'run:fault-free', 'run:faulty',
           'cfg:Select', 'cfg:Poll', 'cfg:EPoll', 'kind:str', 'kind:bytes', 'kind:list', 'kind:genfunc', 'kind:genret', 'kind:file', 'kind:textfile',
-          'kind:stream', 'kind:nobody', 'kind:error', 'kind:sfile', 'kind:bodygen', 'sized+stream', 'sized+stream:str', 'sized+stream:bytes', 'sized+stream:list',
+          'kind:stream', 'kind:nobody', 'kind:error', 'kind:sfile', 'kind:bodygen', 'kind:deleg', 'deleg:fire', 'deleg:fire-late', 'deleg:call', 'deleg:call-late', 'deleg:fire-raise', 'deleg:call-raise', 'sized+stream', 'sized+stream:str', 'sized+stream:bytes', 'sized+stream:list',
           'sized+stream:genret', 'nobody+body', 'nobody+body:204', 'nobody+body:304', 'nobody+body:1xx', 'non-canonical-path', 'further-request-after-redirect',
           'short-read-fileobj', 'short-read-fileobj:return', 'short-read-fileobj:body', 'short-read-fileobj:body-nostream', 'status-class:1', 'status-class:2', 'status-class:3', 'status-class:4', 'status-class:5']
 TIERS = {
@@ -108,8 +108,12 @@ K_UNSTREAMED_E2 = 'C15/malformed/truncated/unstreamed-iterator+empty'
 K_SIZED_STREAM = ('C15/body/sized+stream/length', 'C15/leftover/sized+stream', 'C15/malformed/truncated/sized+stream')
 K_NOBODY_BODY = 'C15/leftover/nobody+body'
 
-KINDS = ['str', 'bytes', 'list', 'genfunc', 'genret', 'file', 'textfile', 'stream', 'nobody', 'error', 'push', 'sfile', 'bodygen']
-KIND_W = [6, 3, 4, 3, 3, 3, 2, 4, 2, 4, 1, 5, 2]
+KINDS = ['str', 'bytes', 'list', 'genfunc', 'genret', 'file', 'textfile', 'stream', 'nobody', 'error', 'push', 'sfile', 'bodygen', 'deleg']
+KIND_W = [6, 3, 4, 3, 3, 3, 2, 4, 2, 4, 1, 5, 2, 4]
+# the body comes from ANOTHER component: `return self.fire(e, 'app')` (the Value of a second event; resolved at once or some loop iterations later) or
+# `v = yield self.call(e, 'app'); yield v.value` (tests/web/test_value.py, test_call_wait.py); the other component returns, yields late or raises
+# (a failed fire() is the server's business: 500; a failed call() is seen by the handler, which answers with a body of its own)
+DELEG_SUBS = ['fire', 'fire-late', 'call', 'call-late', 'fire-raise', 'call-raise']
 READ_SIZES = [1, 7, 100, 1000, 4095, 4096, 10000]     # how much one read() of a file-like body delivers at most (BUFSIZE = 4096 is what is asked for)
 NONCANON = ['/x/../m%d', '/./m%d', '//m%d', '/%%6d%d', '/x/y/../../m%d', '/../m%d', '/m%d//']
 SIZES = [[40, 0, 1, 5, 300, 4095, 4096, 4097, 9000, 20000, 70000], [40, 0, 1, 5, 300, 4095, 4096, 4097, 9000, 20000, 70000, 300000]]
@@ -209,7 +213,11 @@ def gen_spec(ch, avoid, sizes):
         return spec
     spec['size'] = SIZES[sizes][ch.weighted(SIZE_W[sizes], 'size')]
     spec['nonascii'] = ch.chance(1, 3, 'non-ascii')
-    if kind != 'genfunc' and ch.chance(1, 4, 'set-status'):    # a generator function cannot reach self.response any more when it runs
+    if kind == 'deleg':
+        spec['sub'] = ch.choice(DELEG_SUBS, 'deleg-kind')
+        spec['gap'] = ch.choice([1, 2, 5], 'deleg-late') if 'late' in spec['sub'] else 0
+        spec['size'] = spec['size'] or 7          # an empty str from the other component is "no result yet" for a Value, not a body
+    if kind != 'genfunc' and not (kind == 'deleg' and spec['sub'].startswith('call')) and ch.chance(1, 4, 'set-status'):    # a generator function cannot reach self.response any more when it runs
         spec['status'] = ch.choice(STATUSES, 'status')
     if kind in SIZED and ch.chance(1, 5, 'stream-on') and not any(k in avoid for k in K_SIZED_STREAM):
         # "streaming on/off" x "every handler result type": streaming switched on, yet the result is one of known size
@@ -241,8 +249,8 @@ def shape_of(spec):
         s = 'sized+stream'                    # response.stream switched on, the result is a str / bytes / list / returned generator
     if s == 'nobody' and spec['size']:
         s = 'nobody+body'                     # 1xx / 204 / 304 set by the handler, which returns a body all the same
-    if s == 'error':
-        s = 'error-' + spec['sub']
+    if s in ('error', 'deleg'):
+        s = s + '-' + spec['sub']
     if s == 'stream' and spec['empty_first']:
         s += '+empty-first'
     if s == 'sfile':
@@ -300,8 +308,10 @@ def expected_for(spec, marker, method, enc, na):
         if nobody:
             return st, b'', None, False
         return st, None, contains, False
+    if kind == 'deleg' and spec['sub'] == 'fire-raise':
+        return {500}, (b'' if nobody else None), None, False
     st = {spec['status'] or 200}
-    header = kind != 'genfunc'
+    header = kind != 'genfunc' and not (kind == 'deleg' and spec['sub'].startswith('call'))
     if kind == 'nobody':
         return st, b'', None, header
     body = text_for(marker, spec['size'], na if spec['nonascii'] else ':').encode(enc)
@@ -316,6 +326,10 @@ def run_one(ctx):
         _run(ctx)
     finally:
         NET.close_all()
+
+
+class deleg(Event):
+    """what a delegating request handler fires at the backend component"""
 
 
 class _Policy(TapePolicy):
@@ -382,6 +396,15 @@ def _run(ctx):
         if kind == 'genfunc':
             def meth(self, k=''):
                 yield from chunks_for(spec, text(k), enc)
+        elif kind == 'deleg' and spec['sub'].startswith('call'):
+            def meth(self, k=''):
+                v = yield self.call(deleg(idx, k), 'app')
+                # (a handler that passed the error triple of a failed backend on as its body would be producing something that is no body type)
+                yield text(k) if v.errors else v.value
+        elif kind == 'deleg':
+            def meth(self, k=''):
+                pre(self, k)
+                return self.fire(deleg(idx, k), 'app')
         elif kind == 'error':
             sub = spec['sub']
 
@@ -448,6 +471,25 @@ def _run(ctx):
 
     Root = type('Root', (Controller,), {'m%d' % i: make_method(i, s) for i, s in enumerate(specs)})
 
+    class Backend(Component):
+        channel = 'app'
+
+        def deleg(self, idx, k):
+            spec = specs[idx]
+            t = text_for(k, spec['size'], na if spec['nonascii'] else ':')
+            if spec['gap']:
+                return self._late(spec, t)
+            if spec['sub'].endswith('raise'):
+                raise RuntimeError('backend failure ' + k)
+            return t
+
+        def _late(self, spec, t):
+            for _ in range(spec['gap']):
+                yield None
+            if spec['sub'].endswith('raise'):
+                raise RuntimeError('late backend failure')
+            yield t
+
     class PushApp(Component):
         channel = 'web'
 
@@ -461,6 +503,7 @@ def _run(ctx):
     srv = Server(('10.0.0.1', 80), encoding=enc).register(m)
     Root().register(srv)
     PushApp().register(srv)
+    Backend().register(srv)
     for i, s in enumerate(specs):
         ctx.trace('method /m%d: %s%s size=%d status=%s%s%s%s' % (i, shape_of(s), ' (response.stream = True; returns %s)' % s['kind'] if s['stream_on'] else
                                                                 ' (returns %s)' % s['sub'] if s['kind'] == 'nobody' and s['size'] else '', s['size'], s['status'] or s['code'] or s['cls'] or '-',
@@ -622,6 +665,8 @@ def _run(ctx):
         ctx.stat('resp-checked:faulty' if faulty else 'resp-checked:fault-free')
         ctx.stat('framing:' + resp.framing)
         ctx.stat('kind:' + spec['kind'])
+        if spec['kind'] == 'deleg':
+            ctx.stat('deleg:' + spec['sub'])
         ctx.stat('status-class:%d' % (resp.status // 100))
         own = xm == r['marker']          # the handler itself answered (not the server on behalf of a non-canonical target)
         if own and r['method'] != 'HEAD' and spec['stream_on']:
